@@ -395,6 +395,7 @@ def cv_worker(job):
                         out['stats']['tvgbuild_skipped_not_small_records'] = 1
                     else:
                         out['tvgbuild'] = tb[:2]
+                        out['tvglang'] = tb[3:5]
                         if not tb[2]:
                             out['stats']['tvgbuild_records_differ_from_loader'] = 1
                         elif [v[:5] for v in tx['vars']] != [v[:5] for v in rs[0].tvg_given]:
